@@ -45,3 +45,55 @@ CHECKS["C03"] = dict(
                  "element values are distinct integers so a wrong source element is always visible"],
     min_outcomes=50,
 )
+
+CHECKS["C01"] = dict(
+    level="exploration", engine="E1", technique=E1_TECH, level_note=E1_NOTE,
+    level_text="For every shape of the small scope, in nine index-container kinds (incl. 39 compile-time constant shapes), every flat position and "
+               "every multi-index is round-tripped through compute_strides/compute_indices/compute_offset/ndindex and compared with the arithmetic "
+               "definition; both buffer layouts are filled and read back element by element with offsets checked against the layout formula; an "
+               "exhaustive boundary grid (extents around 2^15..2^32) exercises the index math near overflow without storage.",
+    units=[
+        U("index", "harness/c01_index.cpp"),
+        U("index_san", "harness/c01_index.cpp", san=True, family="index", shadow=True),
+    ],
+    rule="case = (container kind, shape) with every flat offset / multi-index of the shape visited inside the case, or (layout, shape), or "
+         "(boundary grid shape, kind); non-trivial = more than one element and dim >= 2 (or any boundary-grid case); distinct = distinct key",
+    bounds=dict(quick="S(1..4,6) u S(5,4) u S(6,3) x 8 kinds; constants S(1..3,3); layouts S(1..4,4); boundary grid dims 1..3 over 10 extents",
+                thorough="S(1..3,12) u S(4,8) u S(5,5) u S(6,4) x 8 kinds; layouts S(1..4,5); same boundary grid"),
+    assumptions=["arithmetic definitions of strides/offsets in the harness", "sizes above 2^20 elements are exercised as index math only"],
+    min_outcomes=1000,
+    require_counts=dict(any=dict(index_roundtrips=100000, boundary_offsets=1000)),
+)
+
+CHECKS["C06"] = dict(
+    level="exploration", engine="E1", technique=E1_TECH, level_note=E1_NOTE,
+    level_text="All ordered pairs of S(0..4,4) and all triples of S(0..3,3) (thorough: S(0..4,3)) are broadcast with the real broadcast_shape and "
+               "compared with the rule (success iff equal-or-1, per-axis maximum); commutativity, associativity incl. agreement of failure, "
+               "idempotence and absorption are checked on the same enumeration; every (source,target) pair of broadcast_to and every pair of "
+               "broadcast_arrays is read at every element index; a mixed container-kind matrix (list, fixed, bounded, clipped, tuple) repeats the pairs.",
+    units=[U("broadcast", "harness/c06_broadcast.cpp"),
+           U("broadcast_san", "harness/c06_broadcast.cpp", san=True, family="broadcast", shadow=True)],
+    rule="case = tuple of shapes (pair/triple/kind-pair) or (source shape, target shape); non-trivial = at least one operand is actually stretched "
+         "or the combination is incompatible; distinct = distinct key",
+    bounds=dict(quick="pairs S(0..4,4)^2, triples S(0..3,3)^3, broadcast_to S(1..4,3) x S(0..4,3), broadcast_arrays pairs with dims summing <= 6, kind matrix 6x6 over S(1..3,3)",
+                thorough="adds triples S(0..4,3)^3, pairs with dim 5..6 operands, all broadcast_arrays pairs of S(1..4,3), kind matrix over S(1..3,4)"),
+    assumptions=["zero extents are outside the domain (nmtools has no empty arrays)"],
+    min_outcomes=500,
+)
+
+CHECKS["C05"] = dict(
+    level="exploration", engine="E1", technique=E1_TECH, level_note=E1_NOTE,
+    level_text="The property's per-axis alphabet (n in 1..6, start/stop in [-(n+2),n+2] or omitted, step in +-1..3 or omitted) is enumerated completely in "
+               "the packed (typed tuple, all 8 None patterns) and dynamic (array<int,3>/array<int,2>) encodings and compared, shape and every element, with "
+               "Python's PySlice_AdjustIndices rule; combinations over 1..3 axes mix integers, ':', in-range ranges of every sign/order class and an "
+               "ellipsis in every position (packed and list-of-either encodings must agree); a boundary grid up to 2^31-1 exercises the float length.",
+    units=[U("slice", "harness/c05_slice.cpp"),
+           U("slice_san", "harness/c05_slice.cpp", san=True, family="slice", shadow=True, tiers=["thorough"])],
+    rule="case = (extent, slice spec) per axis, or (shape, per-axis parts incl. ellipsis); non-trivial = the selection is not the whole source "
+         "(or Python gives an empty / raising result); distinct = distinct key",
+    bounds=dict(quick="1-d alphabet complete (n<=6); nd shapes S(1..3,3); boundary grid 4 extents x 36 bounds x 4 steps",
+                thorough="same 1-d alphabet; nd shapes S(1..3,4); ASan/UBSan shadow build"),
+    assumptions=["Python slice semantics = PySlice_AdjustIndices (verbatim in nmc_ref.hpp, audited against CPython by audit/)",
+                 "zero-length results are checked although nmtools cannot represent them (the property text is fixed); they are listed as a known finding"],
+    min_outcomes=200,
+)
